@@ -47,9 +47,13 @@ ASSUMPTIONS = [
     'per run (probe_library: three requests) and passes the answer in every creation command, so the model mirrors the '
     'library it is compared with; the theorems about other networks / accounts hold for w_guard_reach = true and the '
     'unchanged behaviour is refuted by Examples (known classes)',
-    'judged by the independent oracle alone (requests `probe`, `msrun`; no model): single-key wallets, level_offset, '
+    'judged by the independent oracle alone (requests `probe`, `msrun`, `kprun`; no model): single-key wallets, level_offset, '
     'cosigner_id on wallets without cosigners, relative paths that name the account level on account-level wallets, '
-    'paths rooted at M on master wallets, multisig cosigner wallets',
+    'paths rooted at M on master wallets, multisig cosigner wallets, wallets created with a key_path of their own '
+    '(levels coin_type\' / account\' / change / address_index, change and index hardened or not; no purpose level): '
+    'every stored row is re-derived from the seed along its STORED path (address, extended key), its columns must be the '
+    'items of that path, new rows must continue their (account, change) chain; which level new_account hands out on '
+    'such wallets is not judged',
     'domain of the reach rule: a second network always has another BIP44 coin type than the wallet\'s (networks that '
     'share a coin type share their paths); change flags 0 / 1; hardened change / index levels only on watch-only '
     'wallets (where they must be refused)',
@@ -76,6 +80,11 @@ RULE = ('all networks x witness types at creation with rotating ways of creating
         'the BIP32 test-vector seeds 1-4, each with a creation / restoration matrix and a short history; full and '
         'relative paths that name an account with account_id absent / 0 / equal on default accounts 0 and non-zero, '
         'followed by new_key / get_key / listings of that account; '
+        'wallets with a custom key_path (Bitcoin Core style m/account\'/change\'/address_index\' and nine more shapes with '
+        'hardened / plain change and index levels, with and without coin type and account level) under new_key(s), '
+        'get_key(s)(_change) in bulk, key_for_path([change, index]) with hardened items, keys_for_path(number_of_keys), '
+        'scan, new_account, mark-used and Reopen; multisig wallets asked by explicit [change, address_index] paths on both '
+        'chains and in bulk, interleaved with new_key / new_key_change / get_key / mark-used / Reopen; '
         'a case is non-trivial when a wallet was created and keys were handed out; distinct by request')
 IMPL_TIMEOUT = 3000
 WORKERS = 10
@@ -1222,6 +1231,101 @@ def gen_probe(rng, big):
     return cs
 
 
+def gen_keypath(rng, big):
+    """custom key_path wallets (hardened change / address_index levels, with and without coin type / account level) x
+    one-at-a-time and BULK key creation (new_keys, get_keys(_change), keys_for_path(number_of_keys), scan) x explicit
+    paths x further accounts x reopen"""
+    cs = []
+    nets = ['bitcoin', 'testnet', 'litecoin', 'bitcoinlib_test', 'regtest', 'signet', 'litecoin_testnet', 'dogecoin']
+    for j in range(120 if big else 12):
+        spec = KP_SPECS[j % len(KP_SPECS)] if j >= 2 else 'ah.ch.ih'
+        net = nets[(j // 2) % len(nets)] if j % 2 else rng.choice(['bitcoin', 'testnet', 'litecoin'])
+        wt = 'l' if net.startswith('dogecoin') else 'lps'[(j + j // 3) % 3]
+        seed = bytes(rng.randrange(256) for _ in range(rng.choice([16, 32, 64])))
+        has_acct = 'a' in spec
+        cmds = ['C:a:%s:%s:%s' % (net, wt, spec)]
+        accts = [0]
+
+        def acct():
+            a = rng.choice(accts)
+            return '-' if a == 0 and rng.random() < 0.7 else str(a)
+        cmds += ['K:a:-:0:1', 'G:a:-:0:%d' % rng.randrange(2, 6), 'G:a:-:1:%d' % rng.randrange(2, 4)]
+        for _ in range(rng.randrange(6, 12) if not big else rng.randrange(6, 20)):
+            r = rng.random()
+            chg = rng.choice([0, 0, 1])
+            if r < 0.22:
+                cmds.append('K:a:%s:%d:1' % (acct(), chg))
+            elif r < 0.40:
+                cmds.append('K:a:%s:%d:%d' % (acct(), chg, rng.randrange(2, 5)))
+            elif r < 0.58:
+                cmds.append('G:a:%s:%d:%d' % (acct(), chg, rng.choice([1, 2, 3, 5])))
+            elif r < 0.68:
+                cmds.append('P:a:%s:%d:%d' % (acct(), chg, rng.randrange(0, 30)))
+            elif r < 0.76:
+                cmds.append('B:a:%s:%d:%d:%d' % (acct(), chg, rng.randrange(0, 30), rng.randrange(2, 5)))
+            elif r < 0.84:
+                cmds.append('U:a:%d' % rng.randrange(0, 40))
+            elif r < 0.92:
+                cmds.append('R:a')
+            elif r < 0.96 and has_acct and len(accts) < 3:
+                cmds.append('A:a')
+                accts.append(len(accts))
+            else:
+                cmds += ['U:a:%d' % rng.randrange(0, 40), 'S:a:%d' % rng.randrange(2, 5)]
+        cmds += ['R:a', 'K:a:-:0:2', 'K:a:-:1:1', 'G:a:-:0:3']
+        cs.append(Case('keypath_core' if spec == 'ah.ch.ih' else 'keypath', 'kprun %s %s' % (seed.hex(), ' '.join(cmds)),
+                       meta=('kprun',)))
+    if 'keypath_no_account_level' in _active_known():
+        # recorded class: an account_id on a wallet whose key path has no account level (ignored instead of refused)
+        for j, spec in enumerate(['c.i', 'ch.ih'] if not big else ['c.i', 'ch.ih', 'c.ih', 'th.c.i'] * 4):
+            seed = bytes(rng.randrange(256) for _ in range(32))
+            a = rng.randrange(1, 4)
+            cmds = ['C:a:%s:%s:%s' % (rng.choice(['bitcoin', 'testnet', 'litecoin']), 'slp'[j % 3], spec), 'K:a:-:0:1',
+                    'K:a:%d:0:1' % a, 'K:a:%d:0:1' % a, 'G:a:%d:1:2' % a, 'P:a:%d:0:5' % a, 'K:a:-:0:1', 'K:a:-:1:1']
+            cs.append(Case('keypath_known_account', 'kprun %s %s' % (seed.hex(), ' '.join(cmds)), meta=('kprun',)))
+    return cs
+
+
+def gen_ms_explicit(rng, big):
+    """multisig cosigner wallets asked by explicit [change, address_index] paths and for several keys at once,
+    interleaved with new_key / new_key_change / get_key / mark-used / reopen (the class multisig_address_index, a rule
+    since fixes/C09-4: every key is filed at its own position, later keys continue above it)"""
+    cs = []
+    if 'multisig_address_index' in _active_known():
+        return cs
+    ms_nets = ['bitcoin', 'testnet', 'litecoin', 'bitcoinlib_test', 'dogecoin', 'litecoin_testnet', 'regtest', 'signet']
+    for j in range(120 if big else 10):
+        seed = bytes(rng.randrange(256) for _ in range(32))
+        net = ms_nets[(j * 3 + 1) % len(ms_nets)] if j % 2 else rng.choice(['bitcoin', 'testnet', 'litecoin'])
+        wt = 'l' if net.startswith('dogecoin') else 'spl'[j % 3]
+        n = rng.choice([2, 2, 3])
+        m = rng.randrange(1, n + 1)
+        cmds = ['C:a:%s:%s:%d:%d:%d' % (net, wt, n, m, rng.randrange(n))]
+        if j % 2:
+            cmds += ['K:a:0:-:1', 'G:a:1:1']
+        hi = rng.randrange(2, 9)
+        c0 = rng.choice([0, 1, 1])
+        cmds += ['P:a:%d:%d' % (c0, hi), 'K:a:%d:-:1' % c0, 'P:a:%d:%d' % (1 - c0, rng.randrange(1, 6))]
+        for _ in range(rng.randrange(5, 11)):
+            r = rng.random()
+            chg = rng.choice([0, 1])
+            if r < 0.30:
+                cmds.append('K:a:%d:-:1' % chg)
+            elif r < 0.45:
+                cmds.append('G:a:%d:%d' % (chg, rng.choice([1, 1, 2, 3])))
+            elif r < 0.60:
+                cmds.append('P:a:%d:%d' % (chg, rng.randrange(0, 16)))
+            elif r < 0.72:
+                cmds.append('K:a:%d:-:%d' % (chg, rng.randrange(2, 4)))
+            elif r < 0.84:
+                cmds.append('U:a:%d' % rng.randrange(0, 20))
+            else:
+                cmds.append('R:a')
+        cmds += ['R:a', 'K:a:0:-:1', 'K:a:1:-:1', 'K:a:0:-:1']
+        cs.append(Case('multisig_explicit', 'msrun %s %s' % (seed.hex(), ' '.join(cmds)), meta=('msrun',)))
+    return cs
+
+
 def gen_cases(rng, tier):
     big = tier == 'thorough'
     cs = []
@@ -1398,12 +1502,18 @@ def gen_cases(rng, tier):
     rng2 = random.Random(rng.randrange(1 << 30))
     cs += gen_corpus(rng2, big)
     cs += gen_path_account(rng2, big)
+    # --- custom key_path wallets x bulk creation; multisig wallets x explicit paths / bulk (own generator again)
+    rng3 = random.Random(rng2.randrange(1 << 30))
+    cs += gen_keypath(rng3, big)
+    cs += gen_ms_explicit(rng3, big)
     return cs
 
 
 def is_trivial(c, out):
     if c.req.startswith('msrun '):
         return out.startswith('C=ERR') or out == 'BADREQ'
+    if c.req.startswith('kprun '):
+        return not out.startswith('C=ok') or out.count('|') < 10
     if c.kind == 'probe_depth':
         return 'C=' not in out
     return out.startswith('ERR') or out == 'BADREQ' or 'C=ok' not in out and c.kind != 'expand'
@@ -1801,6 +1911,8 @@ def prop_check(c, out):
     m = c.meta or ('run',)
     if c.req.startswith('msrun '):
         return ms_check(c, out)
+    if c.req.startswith('kprun '):
+        return kp_check(c, out)
     if m[0] == 'expand' and 'CRASH' in out:
         return 'unexpected answer %r' % out[:160]
     if m[0] == 'expand':
@@ -2208,6 +2320,220 @@ def prop_check(c, out):
     return None
 
 
+# ------------------------------------------------------------------ wallets with a custom key_path (request kprun)
+KP_SPECS = ['ah.ch.ih',            # Bitcoin Core: m/account'/change'/address_index'
+            'ah.c.i', 'ah.c.ih', 'ah.ch.i', 'th.ah.c.ih', 'th.ah.ch.ih', 'th.ah.c.i', 'ch.ih', 'c.i',
+            'c.ih']
+
+
+def kp_check(c, out):
+    """history of a wallet created with its own key_path (levels coin_type' / account' / change['] / address_index[']):
+    every stored key lies at a path of that shape, its address and extended key are what BIP32 gives for the STORED
+    path from the seed, its account / change / address_index columns are the items of its path, indices of every
+    (account, change) chain are issued without gaps or repeats (named ones excepted), no address twice; the keys handed
+    out are the ones the request names"""
+    if out == 'BADREQ' or out.startswith('CRASH'):
+        return 'unexpected answer %r' % out[:160]
+    t = c.req.split(' ')
+    der = Deriver(bytes.fromhex(t[1]))
+    cmds, toks = t[2:], out.split(' ')
+    if len(toks) != len(cmds):
+        return 'answer has %d tokens for %d commands' % (len(toks), len(cmds))
+    W = None
+    for cmd, tok in zip(cmds, toks):
+        f = cmd.split(':')
+        op, val = tok.split('=', 1)
+        if op != f[0]:
+            return 'answer token %r does not belong to command %r' % (tok[:40], cmd)
+        if 'CRASH' in val:
+            return 'the library failed with an unexpected exception on %s: %s' % (cmd, val[:60])
+        snap = None
+        if '~' in val:
+            val, snap = val.split('~', 1)
+        if f[0] == 'C':
+            if val != 'ok':
+                return 'Wallet.create refused the key path of %s' % cmd
+            levels = [(x[0], x.endswith('h')) for x in f[4].split('.')]
+            W = dict(net=f[2], wt=WTN[f[3]], levels=levels, names=[l for l, _ in levels], rows={}, by_addr={},
+                     by_path={}, named={})
+        if W is None:
+            continue
+        names, levels, net, wt = W['names'], W['levels'], W['net'], W['wt']
+        has_acct = 'a' in names
+
+        def doc(acct, chg, idx, upto=None):
+            vals = {'t': coin(net), 'a': acct, 'c': chg, 'i': idx}
+            ap = [(vals[l], h) for l, h in levels]
+            return tuple(ap if upto is None else ap[:names.index(upto) + 1])
+
+        def path_s(ap):
+            return 'm' + ''.join('/%d%s' % (v, "'" if h else '') for v, h in ap)
+
+        def chain_idx(key):
+            return set(r['idx'] for r in W['rows'].values() if r['leaf'] and (r['acct'], r['chg']) == key)
+        before = {}
+        for r in W['rows'].values():
+            if r['leaf']:
+                before.setdefault((r['acct'], r['chg']), set()).add(r['idx'])
+        handed, used_id, named_now = [], None, {}
+        misfit = f[0] in 'KGPB' and not has_acct and f[2] != '-' and int(f[2]) != 0
+        if misfit and val != 'ERR':
+            # BIP32 files keys by path: a key path without account level has one account only
+            return ('%s asks for account %s of a wallet whose key path has no account level; it must be refused, it '
+                    'returned %s' % (cmd, f[2], val[:100]))
+        if f[0] in 'KGPBA' and val == 'ERR' and not misfit:
+            return 'a valid key request was refused: %s' % cmd
+        if f[0] in 'KGPB' and not misfit:
+            acct = 0 if f[2] == '-' else int(f[2])
+            chg = int(f[3])
+            chain = before.get((acct, chg), set())
+            nxt = max(chain) + 1 if chain else 0
+            keys = [k.split('|') for k in val.split(',')]
+            if any(len(k) != 6 for k in keys):
+                return 'malformed key in %r' % val[:80]
+            n = {'K': lambda: int(f[4]), 'G': lambda: int(f[4]), 'P': lambda: 1, 'B': lambda: int(f[5])}[f[0]]()
+            if len(keys) != n:
+                return '%s returned %d keys' % (cmd, len(keys))
+            if len(set(k[0] for k in keys)) != n:
+                return '%s handed out a key twice: %s' % (cmd, [k[0] for k in keys])
+            fresh = 0
+            for j, k in enumerate(keys):
+                kpath, kaddr, kwif, kidx, kchg, kacct = k
+                known = W['by_path'].get(kpath)
+                if f[0] == 'P':
+                    want = int(f[4])
+                elif f[0] == 'B':
+                    want = int(f[4]) + j
+                elif f[0] == 'G' and known is not None:
+                    row = W['rows'][known]
+                    if row['used']:
+                        return 'get_key handed out the used key at %s' % kpath
+                    if not row['leaf'] or (row['acct'], row['chg']) != (acct, chg):
+                        return '%s handed out %s' % (cmd, kpath)
+                    want = row['idx']
+                else:
+                    if known is not None:
+                        return ('%s returned the key at %s, which exists already (highest index of the chain is %s)'
+                                % (cmd, kpath, max(chain) if chain else None))
+                    want = nxt + fresh
+                    fresh += 1
+                if f[0] in 'PB':
+                    named_now.setdefault((acct, chg), set()).add(want)
+                want_ap = doc(acct, chg, want)
+                if kpath != path_s(want_ap):
+                    return '%s handed out the key at %s, expected %s' % (cmd, kpath, path_s(want_ap))
+                if (kidx, kchg, kacct) != (str(want), str(chg), str(acct)):
+                    return 'key at %s reports (address_index, change, account) = (%s, %s, %s)' % (kpath, kidx, kchg, kacct)
+                handed.append((kpath, kaddr, kwif))
+        elif f[0] == 'A':
+            k = val.split('|')
+            if len(k) != 6:
+                return 'malformed key in %r' % val[:80]
+            accts = set(r['acct'] for r in W['rows'].values() if r['acct'] is not None and len(r['ap']) > names.index('a'))
+            # the key of the next account: the account key itself or (key paths whose deeper levels are hardened, where
+            # the library's "public master" level lies deeper) the first key below it at change 0 / index 0
+            full = doc(max(accts) + 1 if accts else 0, 0, 0)
+            if k[0] not in [path_s(full[:n]) for n in range(names.index('a') + 1, len(full) + 1)]:
+                return 'new_account handed out %s, expected %s or the first keys below it' % (
+                    k[0], path_s(full[:names.index('a') + 1]))
+            handed.append((k[0], k[1], k[2]))
+        elif f[0] == 'U':
+            if val != 'ERR':
+                used_id = int(val)
+        elif f[0] == 'R' and val != 'ok':
+            return 'the wallet could not be opened again'
+        for key, v in named_now.items():
+            W['named'].setdefault(key, set()).update(v)
+        # the key table after the command
+        if snap is None:
+            return 'no key table after %s' % cmd
+        seen, new_leaf = set(), {}
+        for it in ([] if not snap else snap.split(';')):
+            r = it.split('/')
+            if len(r) != 13:
+                return 'malformed row %r' % it[:80]
+            kid, rpath, addr, wif = int(r[0]), r[1].replace('.', '/'), r[2], r[3]
+            now = dict(path=rpath, addr=addr, wif=wif, idx=r[4], chg=r[5], acct=r[6], depth=r[7], used=r[8] == '1',
+                       net=r[9], wt=r[10], priv=r[11], ktype=r[12])
+            seen.add(kid)
+            old = W['rows'].get(kid)
+            if old is not None:
+                if old['raw'] != now:
+                    if now['used'] and not old['used'] and kid == used_id and dict(old['raw'], used=True) == now:
+                        old['used'] = True
+                        old['raw'] = now
+                        continue
+                    return 'stored key %s changed: %s -> %s' % (rpath, old['raw'], now)
+                continue
+            pp = parse_path(rpath)
+            if pp is None or pp[0] != 'm':
+                return 'stored key has the malformed path %r' % rpath
+            ap = tuple(pp[1])
+            if len(ap) > len(levels):
+                return 'stored key at %s lies below the key path of the wallet' % rpath
+            for (v, h), (l, lh) in zip(ap, levels):
+                if h != lh:
+                    return ('stored key at %s: the %s level of the key path is %shardened' %
+                            (rpath, {'t': 'coin_type', 'a': 'account', 'c': 'change', 'i': 'address_index'}[l],
+                             '' if lh else 'not '))
+                if l == 't' and v != coin(net):
+                    return 'stored key at %s: coin type of %s is %d' % (rpath, net, coin(net))
+                if l == 'c' and v not in (0, 1):
+                    return 'stored key at %s has change level %d' % (rpath, v)
+            x = der.at(ap)
+            if x is None:
+                return 'no key derives at %s' % rpath
+            if addr != _address(net, wt, x.pt):
+                return ('stored key at %s has address %s, BIP32 derivation of that path gives %s' %
+                        (rpath, addr, _address(net, wt, x.pt)))
+            if wif != _xser(net, wt, x, True):
+                return 'stored key at %s: its extended key is not the BIP32 key of that path' % rpath
+            leaf = len(ap) == len(levels)
+            vals = {l: ap[i][0] for i, (l, _) in enumerate(levels) if i < len(ap)}
+            racct = vals.get('a', 0)
+            if now['depth'] != str(len(ap)) or now['net'] != net or now['wt'] != WTL[wt] or now['priv'] != '1' \
+                    or now['ktype'] != 'bip32' or now['used']:
+                return 'stored key at %s is filed as %s' % (rpath, now)
+            if now['acct'] != str(racct):
+                return 'stored key at %s is filed under account %s' % (rpath, now['acct'])
+            if 'c' in vals and now['chg'] != str(vals['c']):
+                return 'stored key at %s is filed under change %s' % (rpath, now['chg'])
+            if leaf and now['idx'] != str(vals['i']):
+                return 'stored key at %s is filed under address_index %s' % (rpath, now['idx'])
+            if addr in W['by_addr']:
+                return 'keys %s and %s share address %s' % (W['rows'][W['by_addr'][addr]]['path'], rpath, addr)
+            W['rows'][kid] = dict(raw=now, path=rpath, ap=ap, leaf=leaf, acct=racct, chg=vals.get('c'), idx=vals.get('i'),
+                                  used=False)
+            W['by_addr'][addr] = kid
+            W['by_path'][rpath] = kid
+            if leaf:
+                new_leaf.setdefault((racct, vals['c']), set()).add(vals['i'])
+            if f[0] in 'UR':
+                return 'key at %s appeared after %s' % (rpath, cmd)
+        if set(W['rows']) - seen:
+            return 'stored key %s disappeared' % W['rows'][min(set(W['rows']) - seen)]['path']
+        for kpath, kaddr, kwif in handed:
+            kid = W['by_path'].get(kpath)
+            if kid is None:
+                return 'key at %s was handed out but is not stored' % kpath
+            if (W['rows'][kid]['raw']['addr'], W['rows'][kid]['raw']['wif']) != (kaddr, kwif):
+                return 'key handed out at %s differs from the stored one' % kpath
+        # new keys of a chain continue it: no gaps, no repeats (indices named by the request excepted)
+        for key, idxs in new_leaf.items():
+            old = before.get(key, set())
+            named = named_now.get(key, set())
+            rest = sorted(idxs - named)
+            base = (max(old) + 1) if old else 0
+            if f[0] in 'PB' and rest:
+                return '%s created the unnamed keys %s on chain (account %d, change %d)' % (cmd, rest, key[0], key[1])
+            if rest and rest != list(range(base, base + len(rest))):
+                return ('%s created indices %s on chain (account %d, change %d) whose highest index was %s' %
+                        (cmd, rest, key[0], key[1], max(old) if old else None))
+            if not has_acct and key[0] != 0:
+                return 'key filed under account %d in a wallet without account level' % key[0]
+    return None
+
+
 def cosigner_seed(seed, i):
     return hmac.new(b'c09 cosigner', seed + bytes([i]), hashlib.sha512).digest()[:32]
 
@@ -2583,6 +2909,21 @@ def _kc_cosigner(c, io=None, mo=None):
     return any(w['level'] != 'single' and f[0] in 'KG' and len(f) > 7 and f[7] != '-' for w, f in _walk(c))
 
 
+def _kc_keypath_account(c, io=None, mo=None):
+    """a wallet whose own key_path has no account level is asked for an account other than 0"""
+    t = c.req.split(' ')
+    if t[0] != 'kprun':
+        return False
+    noacct = set()
+    for cmd in t[2:]:
+        f = cmd.split(':')
+        if f[0] == 'C' and 'a' not in [x[0] for x in f[4].split('.')]:
+            noacct.add(f[1])
+        elif f[0] in 'KGPB' and f[1] in noacct and f[2] not in ('-', '0'):
+            return True
+    return False
+
+
 def _kc_multisig_reach(c, io=None, mo=None):
     """a multisig wallet is asked for another witness type / network / account or another cosigner position"""
     if not c.req.startswith('msrun '):
@@ -2607,7 +2948,8 @@ KNOWN_CLASSES = {'create_from_walletkey': _wkey_after_reopen, 'multisig_address_
                  'single_key_wallet_ignores_arguments': _kc_single,
                  'level_offset_above_main_key': _kc_level_offset,
                  'cosigner_id_without_cosigners': _kc_cosigner,
-                 'multisig_request_outside_cosigner_keys': _kc_multisig_reach}
+                 'multisig_request_outside_cosigner_keys': _kc_multisig_reach,
+                 'keypath_no_account_level': _kc_keypath_account}
 
 
 _ACTIVE = None
@@ -2653,6 +2995,8 @@ def reproduce_known(entry, rundir):
     if entry.get('class') == 'multisig_address_index':
         ks = [t.split('~')[0] for t in out[0].split(' ') if t.startswith('K=')]
         return len(ks) >= 2 and ks[-1] == ks[-2] and 'ERR' not in ks[-1]
+    if entry.get('class') == 'keypath_no_account_level':
+        return prop_check(Case('witness', req, meta=('kprun',)), out[0]) is not None
     if entry.get('class') in REACH_KNOWN:
         # the witness reproduces when the independent oracle still rejects the library's answer to it
         r = entry['witness']['request']
